@@ -166,7 +166,9 @@ pub fn run_c10(cx: &mut Cx) {
     let suite = gen_suite(cx);
     let seed = cx.run_seed;
     cx.count(&format!("n.runs_with_{}_nodes", if k_nodes == 1 { "1" } else if k_nodes <= 4 { "2-4" } else if k_nodes <= 8 { "5-8" } else { "16" }));
-    cx.step(nodes[0], "honest-session", StepOpts::default(), move || make_honest(suite, seed, 4, 3), move |cx, st| {
+    let (hk, phk) = (cx.ch.choose("honest_header_kind", 3), cx.ch.choose("honest_ph_kind", 3));
+    let (hl, hm) = (1 + cx.ch.choose("honest_L", 5) as usize, cx.ch.choose("honest_M", 4) as usize);
+    cx.step(nodes[0], "honest-session", StepOpts::default(), move || crate::scen_robust::make_honest_with(suite, seed, hl, hm, hk, phk), move |cx, st| {
         let h = match st.out { Ok(Ok(h)) => Arc::new(h), other => { cx.log(format!("honest session failed: {:?}", other.err())); return; } };
         let n_ops = 12 + cx.ch.choose("ops", 20);
         for k in 0..n_ops {
